@@ -223,4 +223,63 @@ def handshake (need : SrvRead) (prog : List HStep) : Bool := handshakeFrom need 
 /-- the order of the steps in `runTestCasesForServer` -/
 def runnerHandshake : List HStep := [.write, .close, .await]
 
+/-! ### whose certificate: what the server of a batch presents and what the client is handed
+
+`run()` makes one key pair per run when some instance uses TLS (`serverCreds`);
+`runTestCasesForServer` clears it for a plaintext instance, sends it to the server in the
+`ServerCompatRequest`, takes `resp.PemCert` from the server's answer — a TLS batch whose server
+reports no certificate is not started — and puts that into `ServerTlsCert` of every request of the
+batch.  The in-process reference server (`createServer`) chooses the key pair of its listener:
+the files given with `-cert` / `-key` (the operator's, `Flags.TLSCertFile` / `TLSKeyFile`) first,
+else the credentials of the request, else a fresh pair; it reports the certificate of that very
+pair.  A certificate is an opaque identity `α`. -/
+
+/-- `createServer`: the certificate of the listener's key pair (none: plaintext) -/
+def refServerCert {α : Type} (useTls : Bool) (file creds : Option α) (fresh : α) : Option α :=
+  if !useTls then none else
+  match file, creds with
+  | some f, _ => some f
+  | none, some c => some c
+  | none, none => some fresh
+
+/-- the variant that reports the request's credentials first and the file only without them, while
+the listener takes the file first (for the witness) -/
+def refReportCredsFirst {α : Type} (useTls : Bool) (file creds : Option α) (fresh : α) : Option α :=
+  if !useTls then none else
+  match creds, file with
+  | some c, _ => some c
+  | none, some f => some f
+  | none, none => some fresh
+
+/-- what a server presents to whoever connects, and what it reports as `PemCert` -/
+structure SrvCert (α : Type) where
+  served : Option α
+  reported : Option α
+deriving DecidableEq, Repr
+
+/-- the servers a batch can meet: the reference server, a server under test that uses the credentials
+it is sent, one that makes its own key pair, one that reports no certificate -/
+inductive SrvKind
+  | reference | echo | own | silent
+deriving DecidableEq, Repr, Inhabited
+
+def serverCert {α : Type} (k : SrvKind) (useTls : Bool) (file creds : Option α) (fresh : α) : SrvCert α :=
+  match k with
+  | .reference => ⟨refServerCert useTls file creds fresh, refServerCert useTls file creds fresh⟩
+  | .echo => if useTls then ⟨creds, creds⟩ else ⟨none, none⟩
+  | .own => if useTls then ⟨some fresh, some fresh⟩ else ⟨none, none⟩
+  | .silent => if useTls then ⟨creds, none⟩ else ⟨none, none⟩
+
+/-- `runTestCasesForServer`: "don't send cert info if these tests don't use them" -/
+def credsFor {α : Type} (runner : α) (i : Inst) : Option α := if i.tls then some runner else none
+
+/-- one batch: the certificate situation of its server, `none` when the batch is not started (TLS
+instance, no certificate reported).  Only the reference server is given the operator's files. -/
+def batchCert {α : Type} (k : SrvKind) (opFile : Option α) (runner fresh : α) (i : Inst) : Option (SrvCert α) :=
+  let sc := serverCert k i.tls (if k = .reference then opFile else none) (credsFor runner i) fresh
+  if i.tls && sc.reported.isNone then none else some sc
+
+/-- `req.ServerTlsCert = resp.PemCert` -/
+def handedCert {α : Type} (sc : SrvCert α) : Option α := sc.reported
+
 end ConfModel.Run
